@@ -25,6 +25,11 @@ import (
 func c07SSO(r *core.Run, idx int, rng *rand.Rand) {
 	const wl = "conformant_authn"
 	c := conformantSSO(rng)
+	if rng.Intn(14) == 0 {
+		// a RelayState parameter that is present and empty (and part of what was signed, as for every present parameter)
+		c.HasRel, c.Relay = true, ""
+		c.Labels = append(c.Labels, "empty_relay_state")
+	}
 	// percent-encoding style and KeyInfo / base64 layout a conformant SP may choose
 	c.Pct = []string{spsim.PctGo, spsim.PctGo, spsim.PctLower, spsim.Pct20, spsim.PctAll}[rng.Intn(5)]
 	c.XS.DropKey = rng.Intn(3) == 0
@@ -749,8 +754,7 @@ func init() {
 		Build: func(c *Ctx) []core.Workload {
 			r := c.Run
 			r.Rule = "requests are drawn from a generator of conformant messages (serialisation style x binding x signing x percent-encoding style x KeyInfo layout x SP/IdP signing requirements), each against a fresh provider; the monitor requires acceptance (AuthnRequest: persisted + 303; LogoutRequest / AttributeQuery: status Success). A further workload drives ONE provider with a host-derived issuer through sequences of conformant requests under several hosts (each addressed to the location advertised for its own host); one where the advertised single-sign-on / logout location has a query of its own; and one where a single process serves more than 100 MiB of ordinary, heavily indented redirect-binding messages. Distinct = (class labels, serialisation style, configuration); all are non-trivial."
-			r.Assume("RelayState is only sent when non-empty (an empty RelayState parameter is not treated as conformant)")
-			r.Assume("timestamps use the UTC 'Z' form with 0-9 fractional digits, validity windows have >= 60 s margin")
+						r.Assume("timestamps use the UTC 'Z' form with 0-9 fractional digits, validity windows have >= 60 s margin")
 			r.Require("authn_accepted", 100)
 			r.Require("logout_success", 50)
 			r.Require("query_success", 50)
